@@ -172,7 +172,7 @@ var specSpecial = pbt.Register(&pbt.Spec[SCase]{
 	Property: "C15", Name: "C15.special",
 	Rule: "enumerated special inputs: (a) for each of the four Func sorts and n in {20,60,100,300,1000} (thorough also 5000) the antiquicksort adversary is run against that sort itself and the resulting fixed input is sorted by all " +
 		"sorts (permutation + order); (b) named slice types that carry their own sort.Interface methods with a different Less, n in 0..40; (c) BinarySearchFunc over huge slices of zero-size elements (len MaxInt, MaxInt/2+1, ...); " +
-		"non-trivial = adversarial input of >=50 elements, named type with >=3 elements, zero-size slice longer than MaxInt/2",
+		"non-trivial = adversarial input of >=50 elements, named type with >=3 elements, zero-size slice longer than MaxInt/2; one case in eight is run once more as 4 independent copies in parallel goroutines",
 	Enum: func(shard, shards int, tier string, yield func(SCase) bool) {
 		sizes := []int{20, 60, 100, 300, 1000}
 		if tier == "thorough" {
